@@ -1,23 +1,28 @@
 // Command c20 builds REAL stacks of the real oxy middlewares and serves scripted handlers through them
 // over a real httptest.Server + real client (so http.Flusher / http.Hijacker are the stdlib's own).
 //
-//	cfg stack=<layer>,<layer>,...|-  intervene=<idx|none>  h=<script>
+//	cfg stack=<layer>,<layer>,...|-  intervene=<idx|none>  [front=real|nohijack|noflush|plain]  h=<script>
+//	    front: the ResponseWriter the outermost layer receives: net/http's own (real) or a wrapper that hides
+//	           http.Hijacker, http.Flusher or both (what a recorder, http.TimeoutHandler or HTTP/2 hand to a middleware)
 //	    layer  := kind[/opt]...   kind in stream trace connlimit ratelimit cbreaker roundrobin rebalancer buffer
 //	    opts   := s        sticky session on a balancer (cookie sk<idx>)
 //	              f<code>  breaker fallback = ResponseFallback{code,"text/fb","fb-body"};  fr = RedirectFallback
 //	              q<n> r<n> m<n>   buffer MaxRequestBodyBytes / MaxResponseBodyBytes / Mem{Request,Response}BodyBytes
+//	              p<ms>    ratelimit period in milliseconds (default 1000): passing = 10^6 per period, at its limit = 1 per period burst 1
 //	    intervene=<idx>: the layer at that position (0 = outermost) is driven to its limit before the first op:
 //	              connlimit max=1 with one request parked inside the handler (every other connlimit: max = 1 + parked requests,
 //	              i.e. exactly what the sequential ops need, so that one leaked slot is visible); ratelimit 1/s burst 1 consumed by a
 //	              priming request (frozen clock); breaker tripped by a priming 500; balancers get an empty pool.
 //	              stream / trace / buffer have no such state (buffer intervenes through q<n> and the request body).
-//	    script := status:<code|none>;hdr:K=V,K=V;body:<len>,<len>;flush:<k>;hijack:<0|1>
+//	    script := status:<code|none>;hdr:K=V,K=V;body:<len>,<len>;flush:<k>;hijack:<0|1>[;info:<1xx>,<1xx>][;early:<0|1>]
+//	              info: WriteHeader(1xx) calls before the final status; early:1 = Flush after the headers/WriteHeader,
+//	              before the first body byte (flush=1 then also needs the response HEADERS at the client while the handler runs)
 //	              body chunk i byte j = (37i+11j+7) mod 251; flush:k = Flush after chunk k (0 = never)
 //	req [body=<len>] [abort=1]
 //	    abort=1: the handler does its (non-hijacking) writes/flush and then leaves by panic(http.ErrAbortHandler); the client
 //	    sees a broken or short response -> aborted invoked=<n>   (if a layer intervened the handler never ran: normal line)
 //	    all req ops of a scenario go to the SAME stack instance, one after the other
-//	    -> status=<code> invoked=<n> body=<len>:<adler32> hdr=<K:V|K:V sorted by key|-> flush=<-|0|1> hijack=<-|0|1> fi=<-|0|1> hi=<-|0|1>
+//	    -> status=<code> invoked=<n> body=<len>:<adler32> hdr=<K:V|K:V sorted by key|-> flush=<-|0|1> hijack=<-|0|1> fi=<-|0|1> hi=<-|0|1> info=<1xx codes the client saw|->
 //	       flush=1: the bytes written before Flush reached the client while the handler was still running
 //	       hijack=1: Hijack() returned a connection (the handler then writes the raw response itself)
 //	       fi/hi: the handler's ResponseWriter implements http.Flusher / http.Hijacker ("-" = handler not invoked)
@@ -32,6 +37,8 @@ import (
 	"log"
 	"net/http"
 	"net/http/httptest"
+	"net/http/httptrace"
+	"net/textproto"
 	"net/url"
 	"os"
 	"sort"
@@ -55,10 +62,11 @@ import (
 var flushWait = time.Second
 
 type layerSpec struct {
-	kind    string
-	sticky  bool
-	fb      string // "", "r", "<code>"
-	q, r, m int64
+	kind     string
+	sticky   bool
+	fb       string // "", "r", "<code>"
+	q, r, m  int64
+	periodMs int64
 }
 
 type script struct {
@@ -67,6 +75,8 @@ type script struct {
 	chunks     []int
 	flushAfter int
 	hijack     bool
+	info       []int
+	early      bool
 }
 
 type reqState struct {
@@ -79,6 +89,8 @@ type reqState struct {
 	done     chan struct{}
 	once     sync.Once
 	panicked atomic.Value // string
+	infoMu   sync.Mutex
+	infos    []int
 }
 
 type scen struct {
@@ -176,8 +188,24 @@ func (s *scen) handle(w http.ResponseWriter, r *http.Request) {
 	for _, kv := range hdrs {
 		w.Header().Add(kv[0], kv[1])
 	}
+	for _, c := range sc.info {
+		w.WriteHeader(c)
+	}
 	if sc.status != 0 {
 		w.WriteHeader(sc.status)
+	}
+	noteFlush := func(v int32) { // flush=1 only if every Flush of the script was delivered
+		if cur := atomic.LoadInt32(&st.flush); cur == -1 || v < cur {
+			atomic.StoreInt32(&st.flush, v)
+		}
+	}
+	if sc.early {
+		if fi {
+			fl.Flush()
+			noteFlush(waitDelivered(st, 0))
+		} else {
+			noteFlush(0)
+		}
 	}
 	cum := int64(0)
 	for i, c := range sc.chunks {
@@ -186,9 +214,9 @@ func (s *scen) handle(w http.ResponseWriter, r *http.Request) {
 		if sc.flushAfter == i+1 {
 			if fi {
 				fl.Flush()
-				atomic.StoreInt32(&st.flush, waitDelivered(st, cum))
+				noteFlush(waitDelivered(st, cum))
 			} else {
-				atomic.StoreInt32(&st.flush, 0)
+				noteFlush(0)
 			}
 		}
 	}
@@ -244,6 +272,15 @@ func parseScript(v string) (script, error) {
 			sc.flushAfter = hx.Atoi(val)
 		case "hijack":
 			sc.hijack = val == "1"
+		case "early":
+			sc.early = val == "1"
+		case "info":
+			if val == "" {
+				continue
+			}
+			for _, c := range strings.Split(val, ",") {
+				sc.info = append(sc.info, hx.Atoi(c))
+			}
 		default:
 			return sc, fmt.Errorf("script key")
 		}
@@ -279,6 +316,8 @@ func parseStack(v string) ([]layerSpec, error) {
 				l.r = hx.Atoi64(o[1:])
 			case strings.HasPrefix(o, "m"):
 				l.m = hx.Atoi64(o[1:])
+			case strings.HasPrefix(o, "p"):
+				l.periodMs = hx.Atoi64(o[1:])
 			default:
 				return nil, fmt.Errorf("opt")
 			}
@@ -310,10 +349,14 @@ func build(specs []layerSpec, intervene int, inner http.Handler) (http.Handler, 
 			h, err = connlimit.New(next, source, max)
 		case "ratelimit":
 			rs := ratelimit.NewRateSet()
+			period := time.Second
+			if l.periodMs > 0 {
+				period = time.Duration(l.periodMs) * time.Millisecond
+			}
 			if trip {
-				err = rs.Add(time.Second, 1, 1)
+				err = rs.Add(period, 1, 1)
 			} else {
-				err = rs.Add(time.Second, 1000000, 1000000)
+				err = rs.Add(period, 1000000, 1000000)
 			}
 			if err == nil {
 				h, err = ratelimit.New(next, source, rs)
@@ -405,6 +448,14 @@ func (s *scen) do(body int, hdr map[string]string) (*http.Response, *reqState, e
 	for k, v := range hdr {
 		req.Header.Set(k, v)
 	}
+	req = req.WithContext(httptrace.WithClientTrace(req.Context(), &httptrace.ClientTrace{
+		Got1xxResponse: func(code int, _ textproto.MIMEHeader) error {
+			st.infoMu.Lock()
+			st.infos = append(st.infos, code)
+			st.infoMu.Unlock()
+			return nil
+		},
+	}))
 	resp, err := s.client.Do(req)
 	return resp, st, err
 }
@@ -523,8 +574,18 @@ func (s *scen) exchangeH(body int, hdr map[string]string) (string, *reqState, bo
 	}
 	inv := atomic.LoadInt32(&st.invoked)
 	fi, hi := atomic.LoadInt32(&st.fi), atomic.LoadInt32(&st.hi)
-	return fmt.Sprintf("status=%d invoked=%d body=%d:%08x hdr=%s flush=%s hijack=%s fi=%s hi=%s", resp.StatusCode, inv, total, sum.Sum32(),
-		canonHeaders(resp.Header), tri(atomic.LoadInt32(&st.flush)), tri(atomic.LoadInt32(&st.hijack)), tri(fi), tri(hi)), st, false
+	st.infoMu.Lock()
+	info := "-"
+	if len(st.infos) > 0 {
+		parts := make([]string, len(st.infos))
+		for i, c := range st.infos {
+			parts[i] = strconv.Itoa(c)
+		}
+		info = strings.Join(parts, ",")
+	}
+	st.infoMu.Unlock()
+	return fmt.Sprintf("status=%d invoked=%d body=%d:%08x hdr=%s flush=%s hijack=%s fi=%s hi=%s info=%s", resp.StatusCode, inv, total, sum.Sum32(),
+		canonHeaders(resp.Header), tri(atomic.LoadInt32(&st.flush)), tri(atomic.LoadInt32(&st.hijack)), tri(fi), tri(hi), info), st, false
 }
 
 func panicNote(st *reqState) string {
@@ -543,6 +604,17 @@ func errClass(err error) string {
 	}
 	return "other"
 }
+
+// fronts: what the outermost layer gets as its ResponseWriter when the server's own writer is wrapped
+type flushOnly struct {
+	http.ResponseWriter
+	http.Flusher
+}
+type hijackOnly struct {
+	http.ResponseWriter
+	http.Hijacker
+}
+type plainWriter struct{ http.ResponseWriter }
 
 func waitOr(c chan struct{}, d time.Duration) chan struct{} {
 	out := make(chan struct{})
@@ -586,6 +658,12 @@ func newScenario(cfg []string) (hx.Handler, string) {
 			return nil, "bad-cfg intervene"
 		}
 	}
+	front, _ := hx.KV(cfg, "front")
+	switch front {
+	case "", "real", "nohijack", "noflush", "plain":
+	default:
+		return nil, "bad-cfg front"
+	}
 	hv, _ := hx.KV(cfg, "h")
 	sc, err := parseScript(hv)
 	if err != nil {
@@ -599,6 +677,14 @@ func newScenario(cfg []string) (hx.Handler, string) {
 	top := http.HandlerFunc(func(w http.ResponseWriter, r *http.Request) {
 		st := s.state(r.Header.Get("X-Req-Id"))
 		defer st.once.Do(func() { close(st.done) })
+		switch front {
+		case "nohijack":
+			w = flushOnly{w, w.(http.Flusher)}
+		case "noflush":
+			w = hijackOnly{w, w.(http.Hijacker)}
+		case "plain":
+			w = plainWriter{w}
+		}
 		defer func() {
 			if p := recover(); p != nil {
 				st.panicked.Store(strings.ReplaceAll(fmt.Sprint(p), " ", "_"))
